@@ -190,6 +190,10 @@ class BitStringEncoder(AbstractItemEncoder):
             # TODO: try to avoid ASN.1 schema instantiation
             value = asn1Spec.clone(value)
 
+        # the padded copy and the fragments made below are not values of
+        # the type: its (size) constraints do not apply to them
+        value = univ.BitString(value, tagSet=value.tagSet)
+
         valueLength = len(value)
         if valueLength % 8:
             alignedValue = value << (8 - valueLength % 8)
@@ -220,7 +224,7 @@ class BitStringEncoder(AbstractItemEncoder):
         while stop < valueLength:
             start = stop
             stop = min(start + maxChunkSize * 8, valueLength)
-            substrate += encodeFun(alignedValue[start:stop], asn1Spec, **options)
+            substrate += encodeFun(alignedValue[start:stop], None, **options)
 
         return substrate, True, True
 
